@@ -9,6 +9,7 @@ import (
 
 	"github.com/dominant-strategies/go-quai/common"
 	"github.com/dominant-strategies/go-quai/core/types"
+	"github.com/dominant-strategies/go-quai/crypto"
 	"github.com/dominant-strategies/go-quai/params"
 	orderedmap "github.com/wk8/go-ordered-map/v2"
 	"verifharness/mininet"
@@ -31,6 +32,9 @@ func FastParams() {
 	}
 }
 
+// OwnerContractInit is init code that deploys the one-byte runtime STOP; junk after it grinds the create address.
+var ownerContractInit = []byte{0x60, 0x01, 0x60, 0x0c, 0x60, 0x00, 0x39, 0x60, 0x01, 0x60, 0x00, 0xf3, 0x00}
+
 type Env struct {
 	Net     *mininet.Net
 	Signer  types.Signer
@@ -38,6 +42,8 @@ type Env struct {
 	Quai    []wallet.Key
 	Qi      []wallet.Key
 	nonces  map[common.Address]uint64
+	OwnerInit     []byte          // init code of the lockup-owner contract (EnvOptions.Lockups)
+	OwnerContract *common.Address // its (pre-computed) address
 }
 
 type EnvOptions struct {
@@ -45,6 +51,7 @@ type EnvOptions struct {
 	NQuai, NQi  int
 	Seed        uint64
 	QuaiFunding *big.Int
+	Lockups     bool // deploy a lockup-owner contract during warm-up and let the miner's coinbases be held by it
 }
 
 func Boot(o EnvOptions) (*Env, error) {
@@ -68,6 +75,19 @@ func Boot(o EnvOptions) (*Env, error) {
 		acc := params.GenesisAccount{Address: k.Addr, BalanceSchedule: orderedmap.New[uint64, *big.Int]()}
 		acc.BalanceSchedule.Set(0, new(big.Int).Set(o.QuaiFunding))
 		o.Net.GenAllocs = append(o.Net.GenAllocs, acc)
+	}
+	if o.Lockups {
+		// the contract is created by Quai[last] with nonce 0; grind the init code so that the create address is an in-zone Quai address
+		dep := e.Quai[len(e.Quai)-1]
+		for salt := 0; ; salt++ {
+			code := append(append([]byte{}, ownerContractInit...), byte(salt>>16), byte(salt>>8), byte(salt))
+			a := crypto.CreateAddress(dep.Addr, 0, code, mininet.ZoneLoc)
+			if _, err := a.InternalAndQuaiAddress(); err == nil {
+				e.OwnerInit, e.OwnerContract = code, &a
+				break
+			}
+		}
+		o.Net.LockupContract = e.OwnerContract
 	}
 	if (o.Net.QuaiCoinbase == common.Address{}) {
 		o.Net.QuaiCoinbase = e.Quai[0].Addr
